@@ -1,13 +1,19 @@
 """C03 — transfer state changes follow the documented graph: correspondence K_C03 + monitor (DESIGN.md, C03).
 
-A case is a schedule over ONE real `Transfer` object (subclassed only to record who writes what):
+A case is a schedule over ONE real `Transfer` object (subclassed only to record who writes what), added to a real
+`TransferManager` (subclassed only to record what its own listener is told; its jobs are never started):
 
-    {'dir', 'state', 'slow_cancel', 'slow_fs', 'slow_listener', 'k', 'ly', 'init': {...}, 'steps': [[action…], …]}
+    {'dir', 'state', 'slow_cancel', 'slow_fs', 'ls': [[gated, yields], …], 'k', 'init': {...}, 'steps': [[action…], …]}
+
+`transfer.state_listeners` = the manager's own listener (number 0, as `TransferManager.add` registers it) followed by
+one application listener per entry of `ls`, in that order: `gated` = it suspends until a `resume`, `yields` = it then
+suspends for that many loop iterations. (Older cases say `slow_listener`, `ly` instead of `ls`: one such listener.)
 
 Every step = its actions, then the loop is run until nothing more can happen, then one observation.
 Actions: ['call', id, method, reason, remotely] (`transfer.state.<method>(…)` evaluated AND scheduled now),
 ['create', …] (evaluated now — the state object is looked up — scheduled by a later ['start', id], as
-manager.py:586-589 does with gather), ['mcall', id, method] (`TransferManager.abort/queue/pause`), ['resume']
+manager.py:586-589 does with gather), ['mcall', id, method] (`TransferManager.abort/queue/pause(transfer)` on the real
+manager object), ['resume']
 (the slow step the lock holder is suspended in finishes: cancelled tasks end / file system answers / listener
 returns), ['spawn', which] (fresh tasks are attached), ['setfile'].
 """
@@ -90,6 +96,24 @@ class _Gate:
                 f.set_result(None)
 
 
+def _listeners(case: dict) -> list:
+    """[gated, yields] of every application listener, in registration order (after the manager's own)."""
+    if 'ls' in case:
+        return [[int(bool(g)), int(y)] for g, y in case['ls']]
+    return [[int(bool(case.get('slow_listener'))), int(case.get('ly', 0))]]
+
+
+_SETTINGS = None
+
+
+def _settings():
+    global _SETTINGS
+    if _SETTINGS is None:
+        from aioslsk.settings import Settings
+        _SETTINGS = Settings(credentials={'username': 'me', 'password': 'pw'})
+    return _SETTINGS
+
+
 def _reason_code(v):
     if v is None:
         return '-'
@@ -107,6 +131,7 @@ async def _scenario(loop, case, path):
     from aioslsk.transfer.model import Transfer, TransferDirection
     from aioslsk.transfer import state as st_mod
     from aioslsk.transfer.manager import TransferManager
+    from aioslsk.events import EventBus
     from aioslsk.exceptions import InvalidStateTransition
     import aiofiles.os as real_asyncos
 
@@ -145,12 +170,31 @@ async def _scenario(loop, case, path):
             return super().cancel_tasks()
 
     class Listener:
+        """An application listener (`TransferStateListener` is a public protocol): records what it is told, then
+        suspends as the case says."""
+
+        def __init__(self, li, gated, yields):
+            self.li, self.gated, self.yields = li, gated, yields
+
         async def on_transfer_state_changed(self, transfer, old, new):
-            add('event', old=old.name, new=new.name, cur=transfer.state.VALUE.name)
-            if case.get('slow_listener'):
-                await gate.wait()
-            for _ in range(case.get('ly', 0)):
-                await asyncio.sleep(0)
+            add('event', li=self.li, old=old.name, new=new.name, cur=transfer.state.VALUE.name)
+            try:
+                if self.gated:
+                    await gate.wait()
+                for _ in range(self.yields):
+                    await asyncio.sleep(0)
+            finally:
+                add('event-end', li=self.li)
+
+    class RecManager(TransferManager):
+        """The real manager; what its own listener (number 0 of every transfer it holds) is told is recorded."""
+
+        async def on_transfer_state_changed(self, transfer, old, new):
+            add('event', li=0, old=old.name, new=new.name, cur=transfer.state.VALUE.name)
+            try:
+                return await super().on_transfer_state_changed(transfer, old, new)
+            finally:
+                add('event-end', li=0)
 
     # file system as state.py sees it: recorded, and slow when the case says so
     async def rec_exists(p):
@@ -213,9 +257,13 @@ async def _scenario(loop, case, path):
             t._remotely_queue_task.add_done_callback(t._remotely_queue_task_complete)
 
     spawn(ini.get('tasks', 'none'))
-    listener = Listener()
-    t.state_listeners.append(listener)
-    mgr_self = types.SimpleNamespace(transfers=[t])
+    # the real manager (jobs not started, collaborators absent: abort/queue/pause do not use them); `add` registers
+    # the manager as the transfer's first state listener
+    bus = EventBus()
+    mgr = RecManager(_settings(), bus, types.SimpleNamespace(), types.SimpleNamespace(), types.SimpleNamespace())
+    await mgr.add(t)
+    listeners = [Listener(i + 1, g, y) for i, (g, y) in enumerate(_listeners(case))]
+    t.state_listeners.extend(listeners)
     await simloop.settle()          # the dummy tasks reach their await
 
     saved_asyncos = st_mod.asyncos
@@ -255,6 +303,7 @@ async def _scenario(loop, case, path):
         return bound()
 
     def schedule(cid, coro, mgr):
+        add('sched', who=cid, mgr=bool(mgr))
         task = loop.create_task(runner(cid, coro, mgr))
         task_ids[task] = cid
         runners.append(task)
@@ -295,12 +344,11 @@ async def _scenario(loop, case, path):
                     if meth not in METHODS:
                         lines.append('err bad-arg')
                         continue
-                    fn = TransferManager.__dict__.get(meth) if meth in ('abort', 'queue', 'pause') else None
-                    if fn is None:
+                    if meth not in ('abort', 'queue', 'pause'):
                         lines.append('err not-a-manager-method')
                         continue
                     used.add(cid)
-                    schedule(cid, fn(mgr_self, t), True)
+                    schedule(cid, getattr(mgr, meth)(t), True)
                     lines.append('ok')
                 elif kind == 'resume':
                     gate.open()
@@ -321,7 +369,7 @@ async def _scenario(loop, case, path):
             await simloop.settle()
             evs = [e for e in log if e['kind'] == 'event']
             rets = [e for e in log if e['kind'] == 'ret']
-            ev_s = ','.join(f"{e['old']}>{e['new']}" for e in evs[ev_seen:]) or '-'
+            ev_s = ','.join(f"{e['li']}:{e['old']}>{e['new']}" for e in evs[ev_seen:]) or '-'
             ret_s = ','.join(f"{e['who']}:{e['code']}" for e in rets[ret_seen:]) or '-'
             ev_seen, ret_seen = len(evs), len(rets)
             lock = t._state_lock
@@ -334,7 +382,7 @@ async def _scenario(loop, case, path):
                 f"ua={t.upload_request_attempts} st={_time_code(t.start_time)} ct={_time_code(t.complete_time)} "
                 f"lp={int(t.local_path is not None)} fx={int(os.path.exists(path))} fs={int(t.filesize is not None)} "
                 f"b={t.bytes_transfered} tl={int(live)}")
-            add('obs', who=None, step=si)
+            add('obs', who=None, step=si, cur=t.state.VALUE.name, gated=len(gate.waiting))
     finally:
         rec['on'] = False
         st_mod.asyncos = saved_asyncos
